@@ -580,6 +580,53 @@ def thorough_guards(ctx, a, cl):
     ctx.require(len(cl) > 40000, "fewer behaviour classes than the thorough alphabets must produce: %d" % len(cl))
 
 
+MGF_HASHES = ("SHA1", "SHA256", "SHA512", "SHA3_256", "MD5", "BLAKE2b-1", "BLAKE2s-2")
+
+
+def mgf1_case(acc, hname):
+    """RFC 8017 B.2.1 for one hash: every mask length around 0, 1, 2, 255, 256, 257 blocks (the 4-octet counter beyond
+    its low octet) against hashlib; 1- and 2-octet digests make long masks cheap."""
+    import hashlib
+    import importlib
+    from Crypto.Signature import pss
+    if hname.startswith("BLAKE2"):
+        v, ds = hname.split("-")
+        mod = importlib.import_module("Crypto.Hash." + v)
+        H = mod.new(digest_bytes=int(ds))
+        ref = lambda d: getattr(hashlib, v.lower())(d, digest_size=int(ds)).digest()         # noqa: E731
+    else:
+        H = importlib.import_module("Crypto.Hash." + hname).new()
+        ref = lambda d: hashlib.new(hname.lower(), d).digest()                               # noqa: E731
+    hl = H.digest_size
+    for seed in (b"", b"seed-0123456789"):
+        for blocks in (0, 1, 2, 255, 256, 257, 513):
+            for d in (-1, 0, 1):
+                n = blocks * hl + d
+                if n < 0:
+                    continue
+                acc.count("evaluations")
+                acc.count("mgf1_cases")
+                exp = b"".join(ref(seed + c.to_bytes(4, "big")) for c in range((n + hl - 1) // hl))[:n]
+                try:
+                    got = pss.MGF1(seed, n, H)
+                except Exception as e:  # noqa
+                    got = "%s: %s" % (type(e).__name__, e)
+                acc.seen("classes", ("mgf1", hname, blocks, d))
+                if got != exp:
+                    acc.violation("C04/pss/MGF1/%s" % hname, "MGF1(seed of %d bytes, %d, %s) differs from RFC 8017 B.2.1 at octet %s"
+                                  % (len(seed), n, hname, next((i for i in range(min(len(got), n)) if got[i] != exp[i]), "?")
+                                     if isinstance(got, bytes) else got),
+                                  {"part": "mgf1", "hash": hname}, size=n)
+
+
+def mgf1_worker(shard):
+    from ..common import Acc
+    acc = Acc()
+    for h in shard:
+        mgf1_case(acc, h)
+    return acc
+
+
 def run(ctx):
     q = ctx.quick
     acc = ctx.acc
@@ -606,10 +653,12 @@ def run(ctx):
         phases[name] = round(time.time() - t, 1)
         phases[name + "_shards"] = len(plan)
 
+    ctx.pmap(mgf1_worker, [[h] for h in MGF_HASHES])
     a = ctx.acc
     cl = a.distinct.get("classes", set())
     n = a.n
     # ---- vacuity guards ------------------------------------------------------
+    ctx.require(n.get("mgf1_cases", 0) >= 7 * 2 * 20, "MGF1: only %d cases" % n.get("mgf1_cases", 0))
     for pfx in ("rsa", "dss", "ed"):
         ctx.require(n.get(pfx + "_accept", 0) > 20, "%s: fewer than 20 accepted verifications" % pfx)
         ctx.require(n.get(pfx + "_reject", 0) > 1000, "%s: fewer than 1000 rejected candidates" % pfx)
@@ -709,6 +758,8 @@ def replay(case, acc):
         DSS.replay(case, acc)
     elif p.startswith("ed"):
         ED.replay(case, acc)
+    elif p == "mgf1":
+        mgf1_case(acc, case["hash"])
     elif p == "reuse":
         RSA.build_keys(acc, thorough=True)            # the thorough tier's scheme objects use generated keys
         DSS.build_keys(acc)
